@@ -49,13 +49,13 @@ def codecs():
 
 
 def bounds(tier):
-    return {'rows': '0..40', 'dump_batch': '1..12', 'load_batch': [1, 2, 7, 1024], 'codecs': codecs() if tier != 'quick' else ['snappy']}
+    return {'rows': '0..40' if tier == 'quick' else '0..80', 'dump_batch': '1..12' if tier == 'quick' else '1..20', 'load_batch': [1, 2, 7, 1024], 'codecs': codecs() if tier != 'quick' else ['snappy']}
 
 
 def units(tier):
     out = []
-    for n in range(0, 41):
-        out.append({'fam': 'grid', 'rows': n})
+    for n in range(0, 41 if tier == 'quick' else 81):
+        out.append({'fam': 'grid', 'rows': n, 'maxb': 12 if tier == 'quick' else 20})
     if tier != 'quick':
         for n in (1023, 1024, 1025, 2048, 5000):
             out.append({'fam': 'big', 'rows': n})
@@ -67,7 +67,7 @@ def units(tier):
 
 def cases(unit):
     if unit['fam'] == 'grid':
-        for b in range(1, 13):
+        for b in range(1, unit.get('maxb', 12) + 1):
             yield {'fam': 'grid', 'rows': unit['rows'], 'batch': b}
     elif unit['fam'] == 'big':
         for b in (1, 1024, 2000):
